@@ -308,7 +308,10 @@ def Ctx.step (c : Ctx) (line : String) : Ctx :=
       let want := if !fin then "timeout"
         else if s'.warriors.size == 0 then "nil"
         else ",".intercalate (s'.results.map (fun b => if b then "1" else "0"))
-      let c := if resp != want then c.fail "CORR" s!"Run: model {want} impl {resp}" else c
+      let c := if resp.startsWith "earlier-Run" then
+          c.fail "PROP" "C13+C02+SPEC a slice returned by an earlier Run() changed after a later call (the answer aliases the simulator's buffer)"
+        else if resp != want then c.fail "CORR" s!"Run: model {want} impl {resp}" else c
+      if resp.startsWith "earlier-Run" then endCase c else
       if implEnded then endCase (c.fail "PROP" s!"C04+C13+SPEC+C12+C15 Run {resp}") else
       let (c, evs) := if c.ex.specOn then
           let (sp, evs) := c.st.spec.run (min (c.st.spec.C + 2) horizon)
